@@ -38,8 +38,10 @@ Print Assumptions C05_definite_is_stable.
    The compositional semantics factors through the flattening, so two trees with the same flattening have the same state under every assignment;
    with C04 (valid trees evaluate to their semantics) the reported outcome is the same whichever tree the ambiguity resolution picks and whichever
    redundant brackets (C01's relation D) are written -- PROVIDED BOTH TREES ARE VALID. Validity itself is not invariant under regrouping inside a run
-   of O or X over hints and format constraints: C05_run_grouping_can_change_validity is the witness ([501] O [502] O [901]), which is a finding
-   against the bracket clause of C05 when the brackets are put inside such a run (known_findings.txt, DESIGN.md 12.9). *)
+   of O or X over hints and format constraints: C05_run_grouping_can_change_validity is the witness ([501] O [502] O [901] grouped to the left is valid,
+   grouped to the right it directly pairs a hint with a format constraint). Brackets that choose another grouping inside a run are therefore not
+   "redundant brackets" in the sense of C05 (interpretation I-C05, DESIGN.md section 7): C05's bracket clause is about brackets that leave the tree
+   unchanged, the theorems below say what is true beyond that. *)
 From Ahb Require Import Gen.Gen_grammar Model.Lex Proofs.C01_parse Proofs.C05_runs.
 
 Theorem C05_state_independent_of_run_grouping : forall a e e', flat e = flat e' -> dom e = true -> dom e' = true -> sem a e = sem a e'.
@@ -75,3 +77,19 @@ Theorem C05_run_grouping_can_change_validity :
   flat e = flat e' /\ dom e = true /\ dom e' = true /\ valid e = true /\ valid e' = false.
 Proof. exact validity_depends_on_grouping. Qed.
 Print Assumptions C05_run_grouping_can_change_validity.
+
+(* exactly where the grouping inside a run decides about validity: moving the brackets of a valid (x op y) op z to x op (y op z) gives a valid tree
+   unless op is O or X and y, z are a single hint and a single format constraint -- for U it never matters. When it stays valid the flattening is the
+   same, so C05_outcome_independent_of_run_grouping applies. *)
+Theorem C05_regrouping_validity : forall b x y z, b = BOr \/ b = BXor -> valid (EBin b (EBin b x y) z) = true ->
+  valid (EBin b x (EBin b y z)) = negb (hint_fc_pair y z).
+Proof. exact rotation_validity. Qed.
+Print Assumptions C05_regrouping_validity.
+
+Theorem C05_regrouping_validity_and : forall x y z, valid (EBin BAnd (EBin BAnd x y) z) = valid (EBin BAnd x (EBin BAnd y z)).
+Proof. exact rotation_validity_and. Qed.
+Print Assumptions C05_regrouping_validity_and.
+
+Theorem C05_regrouping_same_flattening : forall b (x y z : kexpr), b <> BThen -> flat (EBin b (EBin b x y) z) = flat (EBin b x (EBin b y z)).
+Proof. exact rotation_same_flat. Qed.
+Print Assumptions C05_regrouping_same_flattening.
